@@ -251,7 +251,7 @@ func genC12(t *rapid.T) C12Case {
 		c.S = b.String()
 		if rapid.IntRange(0, 3).Draw(t, "fixed") == 0 {
 			c.S = rapid.SampledFrom([]string{"Inf", "+Inf", "-inf", "inf", "INF", "+", "-", ".", "e5", "0x", "0b", "0o", "0x.", "0b2", "0o8", "1e+", "1e-", "1_", "_1", "1__2", "1._2", "1_.2", "0_1", "0x_1", "0x1_", "1e1_0", "1e_1", "1p5", "1.5p-3", "0x1e5", "0x1p5", "0b1e5", "0o7p1", "00", "01", "08", "0.e1", ".e1", "1.e1", "Infx", "+-1", "1 ", " 1", "1e2147483647", "1e2147483648", "1e-2147483648", "1e-2147483649", "0.0001e2147483647", "12345e2147483643", "1e99999999999999999999", "0e99999999999999999999", "",
-				"--Inf", "+-inf", "++Inf", "-+Inf", "+ Inf", "Inf+", "InfInf", "Infinity", "iNF", "INf", "-", "--1", "++1", "+-0", "- 1", "1-", "1+", "1e+-1", "1e--1", "1e++1", "1p+-1", "0x-1", "-0x1", "+0b1", "0x+1p1"}).Draw(t, "fx")
+				"<nil>", "nil", "null", "NaN", "nan", "+NaN", "--Inf", "+-inf", "++Inf", "-+Inf", "+ Inf", "Inf+", "InfInf", "Infinity", "iNF", "INf", "-", "--1", "++1", "+-0", "- 1", "1-", "1+", "1e+-1", "1e--1", "1e++1", "1p+-1", "0x-1", "-0x1", "+0b1", "0x+1p1"}).Draw(t, "fx")
 			if rapid.IntRange(0, 3).Draw(t, "fxmut") == 0 {
 				c.S = mutate(t, c.S)
 			}
@@ -333,6 +333,16 @@ func checkC12(c C12Case, o *h.Obs) *h.Fail {
 	wantPrec := c.P
 	if wantPrec == 0 {
 		wantPrec = 34
+	}
+	if c.Kind == "grid" {
+		// replay of an enumerated case (TestC12Grid): exact expansion of 2^-n
+		i := strings.LastIndexByte(c.S, '-')
+		n, _ := strconv.Atoi(c.S[i+1:])
+		want := model.FromInt(new(big.Int).Exp(big.NewInt(5), big.NewInt(int64(n)), nil), int64(-n))
+		if err != nil || !got.Val().Equal(want) || got.Acc != 0 {
+			return h.Failf("value", "Parse(%q) at precision %d: err=%v, got %v (accuracy %v), want the exact value", c.S, c.P, err, got.Val(), model.Acc(got.Acc))
+		}
+		return nil
 	}
 	switch c.Kind {
 	case "dec":
@@ -588,4 +598,40 @@ func FuzzParse(f *testing.F) {
 			h.FuzzFail(t, "C12", fail, c)
 		}
 	})
+}
+
+// TestC12Grid: 0x1p-n and 1p-n at a precision that just holds the whole expansion (5^n x 10^-n has ceil(n log10 5)
+// digits), for the n at which n*log10(5) comes closest to an integer (the continued-fraction denominators of
+// log10(2) and their multiples: 13301, 26602, 28738, ...) and a few round ones: a digit estimate that is a hair
+// short shows only there. Expected digits from math/big.
+func TestC12Grid(t *testing.T) {
+	defer h.WriteStats("C12")
+	ns := []int{485, 2136, 13301, 26602, 28738, 39903, 42039}
+	if h.Thorough() {
+		ns = append(ns, 53204, 55340, 70777, 84078, 141554)
+	}
+	cnt := 0
+	for _, n0 := range ns {
+		for _, n := range []int{n0 - 1, n0, n0 + 1} {
+			five := new(big.Int).Exp(big.NewInt(5), big.NewInt(int64(n)), nil)
+			want := model.FromInt(five, int64(-n))
+			for _, lit := range []string{"0x1p-" + strconv.Itoa(n), "1p-" + strconv.Itoa(n)} {
+				for _, extra := range []uint{0, 1} {
+					c := C12Case{Kind: "grid", Entry: "parse", S: lit, P: uint(len(want.Digits)) + extra}
+					z := mkRecv(c.P, uint8(model.ToZero))
+					d, _, err := z.Parse(lit, 0)
+					got := h.Read(z)
+					o := &h.Obs{}
+					o.Label("grid:tight-binary-exponent")
+					o.NonTrivial()
+					if err != nil || d != z || got.Malformed != "" || !got.Val().Equal(want) || got.Acc != 0 {
+						h.ReportGridFail(t, "C12", h.Failf("value", "Parse(%q) at precision %d (the expansion of 5^%d has %d digits): err=%v, got %v (accuracy %v), want the exact value", lit, c.P, n, len(want.Digits), err, got.Val(), model.Acc(got.Acc)), mustJSON(c))
+					}
+					h.RecordGrid("C12", o, c)
+					cnt++
+				}
+			}
+		}
+	}
+	h.AddExtra("C12", "tight_binary_exponent_cases", cnt)
 }
